@@ -263,6 +263,7 @@ JANET_CORE_FN(cfun_array_concat,
                 const Janet *vals = NULL;
                 janet_indexed_view(argv[i], &vals, &len);
                 if (array->data == vals) {
+                    if (len > INT32_MAX - array->count) janet_panic("array overflow");
                     int32_t newcount = array->count + len;
                     janet_array_ensure(array, newcount, 2);
                     janet_indexed_view(argv[i], &vals, &len);
@@ -291,6 +292,7 @@ JANET_CORE_FN(cfun_array_join,
             janet_panicf("expected indexed type for argument %d, got %v", i, argv[i]);
         }
         if (array->data == vals) {
+            if (len > INT32_MAX - array->count) janet_panic("array overflow");
             int32_t newcount = array->count + len;
             janet_array_ensure(array, newcount, 2);
             janet_indexed_view(argv[i], &vals, &len);
